@@ -69,6 +69,9 @@ type histCfg struct {
 	queryLog     bool // QueryRaftLog, compared with the applied entries
 	quiesce      bool // Config.Quiesce and an idle period inside the history
 	restore      bool // restore scenario after the faults: leaders that know the added members only from a snapshot
+	entrySnappy  bool // Config.EntryCompressionType = Snappy
+	snapSnappy   bool // Config.SnapshotCompressionType = Snappy
+	preVote      bool // Config.PreVote
 }
 
 // roles of the hosts (index = replica id - 1)
@@ -153,8 +156,15 @@ func (c *cluster) raftConfig(replica uint64, nonVoting bool) config.Config {
 		CompactionOverhead: 5,
 		IsNonVoting:        nonVoting,
 		Quiesce:            c.cfg.quiesce,
+		PreVote:            c.cfg.preVote,
 		// NodeHost.RequestCompaction only has work to do when compaction is not automatic
 		DisableAutoCompactions: c.cfg.snapshotOps,
+	}
+	if c.cfg.entrySnappy {
+		rc.EntryCompressionType = config.Snappy
+	}
+	if c.cfg.snapSnappy {
+		rc.SnapshotCompressionType = config.Snappy
 	}
 	if c.cfg.quiesce {
 		// quiesce is entered after 10 election time-outs without activity
@@ -630,6 +640,10 @@ func (c *cluster) doRead(client, host int, nh *dragonboat.NodeHost, key uint64, 
 			if lost {
 				op.code = c.codes["timeout"]
 			} else if r.Completed() {
+				if op.id%4 == 1 {
+					// the two steps of the API are not always taken back to back
+					time.Sleep(time.Duration(op.id%13) * time.Millisecond)
+				}
 				take(nh.ReadLocalNode(rs, key))
 			} else {
 				op.code = dragonboat.VerifC01ResultCode(r)
@@ -956,8 +970,13 @@ func (c *cluster) queryLog(r *vh.Rand) {
 					c.mon = append(c.mon, fmt.Sprintf("QueryRaftLog from %d returned index %d at position %d", first, e.Index, k))
 					break
 				}
-				if e.Type == pb.ApplicationEntry && len(e.Cmd) == cmdLen {
-					c.qlog = append(c.qlog, qentry{host: i, index: e.Index, id: binary.BigEndian.Uint64(e.Cmd)})
+				if e.Type == pb.EncodedEntry || e.Type == pb.ApplicationEntry {
+					if cmd, err := c01hooks.Payload(e); err == nil && len(cmd) >= cmdLen {
+						if !cmdOK(cmd) {
+							c.mon = append(c.mon, fmt.Sprintf("QueryRaftLog on host %d returned a command at index %d that no client proposed", i+1, e.Index))
+						}
+						c.qlog = append(c.qlog, qentry{host: i, index: e.Index, id: binary.BigEndian.Uint64(cmd)})
+					}
 				}
 			}
 			c.noteMu.Unlock()
@@ -1333,6 +1352,57 @@ func (c *cluster) allCatchUp(key, phase string) {
 	c.note("restore_" + key + "_checked")
 }
 
+// heldRead is a linearizable read whose ReadIndex step has completed and whose
+// ReadLocalNode step is taken later.
+type heldRead struct {
+	op  *opRec
+	rs  *dragonboat.RequestState
+	fin func()
+}
+
+func (c *cluster) startHeldRead(host int, nh *dragonboat.NodeHost, key uint64) *heldRead {
+	op := &opRec{id: atomic.AddUint64(&c.nextID, 1), client: 0, host: host, kind: 'R', key: key, api: "ReadIndex ... ReadLocalNode"}
+	fin := c.record(op)
+	op.inv = c.tick()
+	rs, err := nh.ReadIndex(shardID, time.Second)
+	if err != nil {
+		op.code = codeRefused
+		op.resp = c.tick()
+		fin()
+		return nil
+	}
+	res, _, lost := c.wait(fmt.Sprintf("read %d", op.id), rs, time.Second)
+	if lost || !res.Completed() {
+		op.code = c.codes["timeout"]
+		if !lost {
+			op.code = dragonboat.VerifC01ResultCode(res)
+		}
+		op.resp = c.tick()
+		rs.Release()
+		fin()
+		return nil
+	}
+	return &heldRead{op: op, rs: rs, fin: fin}
+}
+
+func (c *cluster) finishHeldRead(h *heldRead, nh *dragonboat.NodeHost) {
+	defer h.fin()
+	defer func() {
+		if p := recover(); p != nil {
+			c.violation("ReadLocalNode after a completed ReadIndex panicked: %v", p)
+		}
+	}()
+	v, err := nh.ReadLocalNode(h.rs, h.op.key)
+	if lr, ok := v.(lookupResult); err == nil && ok {
+		h.op.code = c.codes["completed"]
+		h.op.rval, h.op.rver, h.op.obs = lr.val, lr.ver, lr.count
+	} else {
+		h.op.code = c.errCode(err)
+	}
+	h.op.resp = c.tick()
+	h.rs.Release()
+}
+
 func (c *cluster) restoreScenario(r *vh.Rand) {
 	voters := c.upVoters()
 	l := c.leaderHost()
@@ -1347,6 +1417,51 @@ func (c *cluster) restoreScenario(r *vh.Rand) {
 			break
 		}
 	}
+	// reads on F whose ReadIndex step completes now and whose ReadLocalNode step is
+	// taken when F's state machine is in the middle of recovering from the
+	// snapshot (or, if it never does, once F has caught up): the Lookup must not
+	// see a state machine that is half recovered
+	var held []*heldRead
+	fnh := c.get(f)
+	for k := 0; k < 2*c.cfg.keys; k++ {
+		if h := c.startHeldRead(f, fnh, uint64(1+k%c.cfg.keys)); h != nil {
+			held = append(held, h)
+		}
+	}
+	recovering := make(chan struct{})
+	var once sync.Once
+	c.rec.mu.Lock()
+	c.rec.onRecover = func(replica uint64) {
+		if replica == uint64(f+1) {
+			once.Do(func() { close(recovering) })
+		}
+	}
+	c.rec.mu.Unlock()
+	var hw sync.WaitGroup
+	finishNow := make(chan struct{})
+	for _, h := range held {
+		hw.Add(1)
+		go func(h *heldRead) {
+			defer hw.Done()
+			select {
+			case <-recovering:
+				c.note("read_local_node_during_recovery")
+			case <-finishNow:
+			}
+			c.finishHeldRead(h, fnh)
+		}(h)
+	}
+	var finOnce sync.Once
+	finishHeld := func() {
+		finOnce.Do(func() {
+			close(finishNow)
+			hw.Wait()
+			c.rec.mu.Lock()
+			c.rec.onRecover = nil
+			c.rec.mu.Unlock()
+		})
+	}
+	defer finishHeld()
 	// F is cut off; the non-voting replica 7 is added meanwhile
 	for j := range c.addrs {
 		if j != f {
@@ -1386,6 +1501,7 @@ func (c *cluster) restoreScenario(r *vh.Rand) {
 		}
 		time.Sleep(10 * time.Millisecond)
 	}
+	finishHeld()
 	c.rec.mu.Lock()
 	installed := c.rec.recovers+c.rec.streams > before
 	c.rec.mu.Unlock()
